@@ -49,6 +49,10 @@ func Explore(m *model.Model, repo, filter, kind, pkgFilter string) {
 		muts = genNegates(m, filter)
 	case "wrongvar":
 		muts = genWrongVars(m, filter)
+	case "weaken":
+		muts = genWeaken(m, filter, false)
+	case "boundary":
+		muts = genWeaken(m, filter, true)
 	default:
 		muts = genSwaps(m, filter)
 	}
@@ -452,6 +456,73 @@ func genWrongVars(m *model.Model, filter string) []mutant {
 							if id, ok := ast.Unparen(u.X).(*ast.Ident); ok {
 								try(id)
 							}
+						}
+					}
+					return true
+				})
+			}
+		}
+	}
+	return out
+}
+
+// genWeaken: every `a && b` / `a || b` is replaced by `a` and by `b` (a conjunct or disjunct lost); with boundary,
+// every ordered comparison moves its boundary by one (`<` <-> `<=`, `>` <-> `>=`).
+func genWeaken(m *model.Model, filter string, boundary bool) []mutant {
+	var out []mutant
+	for _, p := range explorePkgs(m) {
+		for _, f := range p.Syntax {
+			fname := m.Prog.Fset.Position(f.Pos()).Filename
+			if strings.HasSuffix(fname, "_test.go") || strings.Contains(fname, "zz_verif") {
+				continue
+			}
+			src, err := os.ReadFile(fname)
+			if err != nil {
+				continue
+			}
+			for _, d := range f.Decls {
+				fd, ok := d.(*ast.FuncDecl)
+				if !ok || fd.Body == nil {
+					continue
+				}
+				name := fd.Name.Name
+				expect := model.ShortPkg(p.PkgPath) + "." + name
+				group := ""
+				if fd.Recv != nil && len(fd.Recv.List) == 1 {
+					tn := load.RecvTypeName(fd.Recv.List[0].Type)
+					name = tn + "." + name
+					expect = model.ShortPkg(p.PkgPath) + "." + tn
+					group = tn
+				}
+				if filter != "" && !strings.Contains(name, filter) {
+					continue
+				}
+				if fd.Recv == nil && !fd.Name.IsExported() {
+					expect = ""
+				}
+				off := func(pos token.Pos) int { return m.Prog.Fset.Position(pos).Offset }
+				ast.Inspect(fd.Body, func(x ast.Node) bool {
+					be, ok := x.(*ast.BinaryExpr)
+					if !ok {
+						return true
+					}
+					pos := m.Prog.Fset.Position(be.OpPos)
+					txt := string(src[off(be.Pos()):off(be.End())])
+					add := func(tag, repl string) {
+						out = append(out, mutant{ID: fmt.Sprintf("%s:%s:%d:%d:%s", map[bool]string{false: "weaken", true: "boundary"}[boundary], name, pos.Line, pos.Column, tag), Op: "weaken", Group: groupOr(group, name), File: fname,
+							Edits:  []edit{{off(be.Pos()), off(be.End()), "(" + repl + ")"}},
+							Expect: expect,
+							Desc:   fmt.Sprintf("%s %s  [%s] -> [%s]", name, m.Prog.Rel(be.OpPos), oneLine(txt), oneLine(repl))})
+					}
+					l := string(src[off(be.X.Pos()):off(be.X.End())])
+					r := string(src[off(be.Y.Pos()):off(be.Y.End())])
+					if !boundary && (be.Op == token.LAND || be.Op == token.LOR) {
+						add("L", l)
+						add("R", r)
+					}
+					if boundary {
+						if to, ok := map[token.Token]string{token.LSS: "<=", token.LEQ: "<", token.GTR: ">=", token.GEQ: ">"}[be.Op]; ok {
+							add("B", l+" "+to+" "+r)
 						}
 					}
 					return true
